@@ -376,8 +376,25 @@ def generate(repo):
                     return src[i:j + 1]
             j += 1
         return ""
-    dbody = body_of_fn(sb, r"inline\s+auto\s+destroy_sandbox\s*\(\s*\)")
-    cbody = body_of_fn(sb, r"inline\s+bool\s+create_sandbox\s*\(")
+    def inline_helpers(body, rounds=3):
+        """the steps of create/destroy/find may live in private helper functions without parameters: replace a statement
+        `name();` / `this->name();` by the helper's body in braces (so that a guard taken inside keeps its own scope)"""
+        for _ in range(rounds):
+            changed = False
+            for m in list(re.finditer(r"(?<![\w.>:])(?:this->)?(\w+)\(\s*\)\s*;", body)):
+                name = m.group(1)
+                if name in ("destroy_sandbox", "create_sandbox", "find_sandbox_from_example", "impl_destroy_sandbox", "impl_create_sandbox"):
+                    continue
+                hb = body_of_fn(sb, r"(?:inline\s+)?(?:static\s+)?(?:void|auto|bool)\s+" + re.escape(name) + r"\s*\(\s*\)\s*(?:const\s*)?(?:noexcept\s*)?(?=\{)")
+                if hb:
+                    body = body[:m.start()] + hb + body[m.end():]
+                    changed = True
+                    break
+            if not changed:
+                break
+        return body
+    dbody = inline_helpers(body_of_fn(sb, r"inline\s+auto\s+destroy_sandbox\s*\(\s*\)"))
+    cbody = inline_helpers(body_of_fn(sb, r"inline\s+bool\s+create_sandbox\s*\("))
     def pos(body, pat):
         m = re.search(pat, body)
         return m.start() if m else -1
@@ -398,7 +415,7 @@ def generate(repo):
     unlink_first = 0 <= p_erase < p_impl and "make_scope_exit" not in dbody[:p_erase]
     p_push, p_cimpl = pos(cbody, r"sandbox_list\.push_back"), pos(cbody, r"impl_create_sandbox\s*\(")
     # find_sandbox_from_example: the membership query of every list entry happens while the guard on the list is held
-    fbody = body_of_fn(sb, r"static\s+T_Sbx\*\s+find_sandbox_from_example\s*\(")
+    fbody = inline_helpers(body_of_fn(sb, r"static\s+T_Sbx\*\s+find_sandbox_from_example\s*\("))
     fg = re.search(r"RLBOX_ACQUIRE_(?:SHARED|UNIQUE)_GUARD\(\s*\w+\s*,\s*sandbox_list_lock\s*\)", fbody)
     fq = re.search(r"is_pointer_in_sandbox_memory", fbody)
     find_in_guard = False
